@@ -144,3 +144,77 @@ def extra_C10(rep, tier):
 def extra_C13(rep, tier):
     from . import check_image
     check_image.add_to(rep, "C13", check_image.run())
+
+
+VALIDATOR_DRIVER = r"""
+import json, random, sys
+from lsprotocol import validators, types
+import attrs
+from harness.pyside import enc_int
+seed, n_random, out = int(sys.argv[1]), int(sys.argv[2]), sys.argv[3]
+rnd = random.Random(seed)
+class IntSub(int):
+    pass
+class NoName:
+    def __str__(self):
+        return "anonattr"
+M = 2 ** 31
+ints = [-M - 1, -M, -M + 1, -1, 0, 1, M - 2, M - 1, M, 2 ** 32, -2 ** 32, 2 ** 63, -2 ** 63, 10 ** 30, -10 ** 30]
+ints += [rnd.randint(-2 ** 33, 2 ** 33) for _ in range(n_random)] + [rnd.randint(-M - 3, -M + 3) for _ in range(20)] + [rnd.randint(M - 3, M + 3) for _ in range(20)]
+weird = [None, True, False, 1.0, 0.5, float("nan"), float("inf"), "1", "", b"1", [1], (1,), {"a": 1}, object(), IntSub(5), IntSub(-1), IntSub(2 ** 31)]
+def kind(v):
+    if v is None: return "none"
+    if isinstance(v, bool): return "bool"
+    if type(v) is int: return "int"
+    if isinstance(v, int): return "intsub"
+    return type(v).__name__
+events = []
+attr_named = attrs.fields(types.Position).line
+for fn_name in ("integer_validator", "uinteger_validator"):
+    fn = getattr(validators, fn_name)
+    for inst, attr, label in ((types.Position(line=0, character=0), attr_named, "Position.line"), (types.Position(line=0, character=0), NoName(), "Position.anonattr")):
+        for v in ints + weird:
+            ev = {"e": "Validate", "fn": fn_name, "pyk": kind(v), "n": enc_int(int(v)) if isinstance(v, int) else {"k": "null"}, "label": label}
+            try:
+                r = fn(inst, attr, v)
+                ev["res"] = "true" if r is True else "false" if r is False else "other:return-" + type(r).__name__
+                ev["named"] = False
+            except ValueError as e:
+                ev["res"] = "valueerror"
+                ev["named"] = label in str(e)
+            except BaseException as e:
+                ev["res"] = "other:" + type(e).__name__
+                ev["named"] = False
+            events.append(ev)
+sessions = [{"sid": 1, "sk": "validator", "root": {"kind": "structure", "name": "Position"}, "var": {"vk": "none", "name": ""}, "d": 0, "ev": events}]
+json.dump({"norm": {}, "sessions": sessions}, open(out, "w"))
+print(len(events))
+"""
+
+
+def extra_C12(rep, tier):
+    """The two range validators called directly on arbitrary Python values (clauses V_total, V_named, V_range)."""
+    import json
+    import os
+    import shutil
+    import subprocess
+    work = common.scratch("c12-")
+    try:
+        tp = os.path.join(work, "trace.json")
+        p = subprocess.run([common.PY, "-c", VALIDATOR_DRIVER, str(common.seed()), "200" if tier == "quick" else "5000", tp], cwd=common.VERIF,
+                           env=codec_check.pkg_env(os.path.join(common.REPO, "packages", "python")), stdout=subprocess.PIPE, stderr=subprocess.PIPE)
+        if p.returncode != 0:
+            raise common.MachineryError("validator driver failed:\n" + p.stderr.decode()[-2000:])
+        nev = int(p.stdout.decode().strip().splitlines()[-1])
+        rc, out = common.run_tlc("CodecTrace", codec_check.trace_cfg(1, nev), env={"LSP_MODEL": os.path.join(common.REPO, "generator", "lsp.json"), "CODEC_TRACE": tp}, heap="3g")
+        if '"@DONE' not in out:
+            raise common.MachineryError("CodecTrace.tla did not consume the validator trace:\n" + out[-2000:])
+        evs = json.load(open(tp))["sessions"][0]["ev"]
+        for f in common.tagged_lines(out, "@F"):
+            ev = evs[f["l"] - 1]
+            for clause in f["c"]:
+                rep.violation({"clause": clause, "fn": ev["fn"], "pyk": ev["pyk"], "res": ev["res"]}, ev)
+        rep.coverage["validator_calls_validated"] = nev
+        rep.coverage["traces_validated_against_impl"] = rep.coverage.get("traces_validated_against_impl", 0) + 1
+    finally:
+        shutil.rmtree(work, ignore_errors=True)
